@@ -232,6 +232,29 @@ pub fn apply(w: &World, s: &mut Store, a: &Action) -> StepResult {
             }
             StepResult { code: 0, committed: true }
         }
+        Action::TokenlessRepay { u, .. } => {
+            // the risk admin acts on someone else's account inside a deleverage bracket
+            let signer = default_signer(w, a).unwrap();
+            let acct = cur_account(w, s, *u);
+            let rem = w.risk_metas(s, &acct, None, None);
+            let i = user_ix(w, s, a, signer).unwrap();
+            let mut ixs = vec![];
+            let mut signers = vec![signer];
+            if s.get(&ix::liq_record_key(&acct)).is_none() {
+                ixs.push(ix::init_liq_record(acct, w.payer));
+                signers.push(w.payer);
+            }
+            // repay-all closes the position: the closing health check sees the remaining balances
+            let bkey = match a {
+                Action::TokenlessRepay { b, .. } => w.banks[*b].key,
+                _ => unreachable!(),
+            };
+            let rem_end = w.risk_metas(s, &acct, None, Some(bkey));
+            ixs.extend([ix::start_deleverage(w.group, acct, signer, rem.clone()), i, ix::end_deleverage(w.group, acct, signer, rem_end)]);
+            let tx = Tx::new(ixs, &signers);
+            let r = crate::svm::process_tx(s, &tx);
+            StepResult { code: r.code(), committed: r.ok() }
+        }
         _ => {
             let signer = default_signer(w, a).unwrap();
             let i = user_ix(w, s, a, signer).unwrap();
